@@ -27,11 +27,11 @@ RefOps == {"GetReference", "Store", "StoreDeferred", "StoreEncoded"}
 IsRef(r) == r.t = "ref"
 
 (* flattening: all events with the index of their call *)
-EvIdx(h) == {<<i, j>> : i \in 1..Len(h), j \in 1..Len(h[i].ev)}
+EvIdx(h) == UNION {{<<i, j>> : j \in 1..Len(h[i].ev)} : i \in 1..Len(h)}
 Ev(h, p) == h[p[1]].ev[p[2]]
 Before(p, q) == p[1] < q[1] \/ (p[1] = q[1] /\ p[2] < q[2])
 
-PutsUpTo(h, i) == {h[a].ev[j].n : <<a, j>> \in {p \in EvIdx(h) : p[1] <= i /\ h[p[1]].ev[p[2]].k = "put"}}
+PutsUpTo(h, i) == {Ev(h, p).n : p \in {q \in EvIdx(h) : q[1] <= i /\ Ev(h, q).k = "put"}}
 HandedUpTo(h, i) == {h[a].res.n : a \in {b \in 1..i : IsRef(h[b].res)}}
 ClosedOK(h, i) == h[i].op = "Close" /\ h[i].res.t = "ok"
 FirstClose(h) == IF \E i \in 1..Len(h) : ClosedOK(h, i)
